@@ -18,9 +18,11 @@ PROPS = ["EarlierUntouched"]
 START = 12 * 3600 + 59 * 60 + 55   # 12:59:55 on day 0
 
 
-def _cfg(methods, maxlen, emit=False, view=False):
+def _cfg(methods, maxlen, emit=False, view=False, moves=("same", "plus1", "to13", "midnight")):
     ms = ", ".join(f'"{m}"' for m in methods)
-    s = f'CONSTANTS\n  Groups = {{"ga", "gb"}}\n  Methods = {{{ms}}}\n  MaxLen = {maxlen}\n  Start = {START}\nINIT Init\nNEXT Next\n'
+    mv = ", ".join(f'"{m}"' for m in moves)
+    s = (f'CONSTANTS\n  Groups = {{"ga", "gb"}}\n  Methods = {{{ms}}}\n  MaxLen = {maxlen}\n  Start = {START}\n  MoveSet = {{{mv}}}\n'
+         "INIT Init\nNEXT Next\n")
     s += "".join(f"INVARIANT {i}\n" for i in INVS)
     if emit:
         s += "INVARIANT Emit\n"
@@ -138,6 +140,13 @@ def main(tier):
         r2 = require_ok(run_tlc("RunDirs", "_gen_RD_emit.cfg", timeout=1500, keep_stdout=False), "RunDirs emit")
         rep.add_tlc(f"RunDirs all histories of length {L} (two representative methods)", r2)
         hists += list(r2.records)
+    # same-second pile-ups: every history of length 3/4 with one method and the moves {same second, +1s}
+    fl = 3 if tier == "quick" else 4
+    with open(os.path.join(spec, "_gen_RD_focus.cfg"), "w") as f:
+        f.write(_cfg(["collect_paths"], fl, emit=True, moves=("same", "plus1")))
+    r4 = require_ok(run_tlc("RunDirs", "_gen_RD_focus.cfg", timeout=900, keep_stdout=False), "RunDirs focus")
+    rep.add_tlc(f"RunDirs all histories of length {fl} with moves {{same second, +1s}} (collision suffixes)", r4)
+    hists += list(r4.records)
     with open(os.path.join(spec, "_gen_RD_sim.cfg"), "w") as f:
         f.write(_cfg(["collect_paths", "collect_by_line", "next_paths", "next_by_line"], sim[1], emit=True))
     r3 = require_ok(run_tlc("RunDirs", "_gen_RD_sim.cfg", timeout=600, keep_stdout=False, workers=1,
